@@ -53,7 +53,8 @@ def case_strategy(tier: str):
         'opts': options_strategy(),
         'opts2': options_strategy(),
         'delivery': st.sampled_from(['str', 'chunks', 'file', 'lines', 'chars', 'special', 'file_seeked', 'file_after_readline', 'fd_file', 'path_file',
-                                     'codecs_file', 'wrapped_binary_file', 'generator', 'iter_only']),
+                                     'codecs_file', 'wrapped_binary_file', 'generator', 'iter_only',
+                                     'vfs_open_str', 'vfs_bytes_open_str', 'vfs_read_kv1', 'rawfs_open_str', 'rawfs_read_kv1']),
         'cuts': st.lists(st.integers(0, 1 << 16), max_size=8),
         # the same block OBJECT listed again under another block (no cycles): [which block, under which block]
         'share': st.one_of(st.just([]), st.lists(st.tuples(st.integers(0, 63), st.integers(0, 63)).map(list), max_size=3)),
@@ -127,6 +128,13 @@ def walk(nodes, fn):
 
 _CLOSE_LATER: list = []
 _UNLINK_LATER: list = []
+_RMDIR_LATER: list = []
+
+
+class _Parsed:
+    """A delivery that already went through the library's own parse call (FileSystem.read_kv1)."""
+    def __init__(self, tree):
+        self.tree = tree
 
 
 def _cleanup_files():
@@ -136,6 +144,11 @@ def _cleanup_files():
     while _UNLINK_LATER:
         try:
             os.unlink(_UNLINK_LATER.pop())
+        except OSError:
+            pass
+    while _RMDIR_LATER:
+        try:
+            os.rmdir(_RMDIR_LATER.pop())
         except OSError:
             pass
 
@@ -182,6 +195,32 @@ def deliver(text: str, mode: str, cuts):
             f = codecs.open(path, 'r', encoding='utf8', errors='surrogatepass')
         else:
             f = io.TextIOWrapper(open(path, 'rb'), encoding='utf8', errors='surrogatepass', newline='')
+        _CLOSE_LATER.append(f)
+        return f
+    if mode.startswith(('vfs_', 'rawfs_')):
+        # The library's own file sources (srctools.filesys): a text file of a VirtualFileSystem whose byte encoding is
+        # unrelated to the text (the text is documented to be handed back as it is), the same stored as UTF-8 bytes, and
+        # a file in a directory.  "*_read_kv1" returns the parsed tree itself (FileSystem.read_kv1).
+        from srctools.filesys import VirtualFileSystem, RawFileSystem
+        pick = cuts[0] if cuts else 0
+        if mode.startswith('vfs_'):
+            enc = ['cp1252', 'latin-1', 'ascii', 'utf-16', 'utf8'][pick % 5]
+            data = text.encode('utf8') if mode == 'vfs_bytes_open_str' else text
+            fs = VirtualFileSystem({'Scripts/Data.txt': data}, encoding=enc)
+            name = ['scripts/data.txt', 'Scripts/Data.txt', 'scripts\\DATA.TXT'][pick % 3]
+        else:
+            import os
+            import tempfile
+            folder = tempfile.mkdtemp(prefix='verif_c01_fs_')
+            with open(os.path.join(folder, 'data.txt'), 'w', encoding='utf8', newline='') as out:
+                out.write(text)
+            _UNLINK_LATER.append(os.path.join(folder, 'data.txt'))
+            _RMDIR_LATER.append(folder)
+            fs = RawFileSystem(folder)
+            name = 'data.txt'
+        if mode.endswith('read_kv1'):
+            return _Parsed(fs.read_kv1(name))
+        f = fs[name].open_str() if pick % 2 else fs.open_str(name)
         _CLOSE_LATER.append(f)
         return f
     if mode == 'chars':
@@ -279,7 +318,8 @@ def _execute(desc, ctx):
     # (1)+(4) round trip through the requested delivery and through plain str
     got_plain = None
     for mode in dict.fromkeys(['str', desc['delivery']]):
-        parsed = Keyvalues.parse(deliver(text, mode, desc['cuts']))
+        source = deliver(text, mode, desc['cuts'])
+        parsed = source.tree if isinstance(source, _Parsed) else Keyvalues.parse(source)
         got = [shape(c) for c in parsed]
         if not ctx.check(got == want, 'shape',
                          f'delivery={mode}: parse(serialise(t)) differs\n want={want!r}\n got ={got!r}\n text={text!r}',
@@ -387,6 +427,8 @@ SUBCHECKS = [
                   'delivery:chunks', 'delivery:file', 'delivery:lines', 'delivery:chars', 'delivery:special',
                   'delivery:file_seeked', 'delivery:file_after_readline', 'delivery:fd_file', 'delivery:path_file',
                   'delivery:codecs_file', 'delivery:wrapped_binary_file', 'delivery:generator', 'delivery:iter_only',
+                  'delivery:vfs_open_str', 'delivery:vfs_bytes_open_str', 'delivery:vfs_read_kv1', 'delivery:rawfs_open_str',
+                  'delivery:rawfs_read_kv1',
                   'shared_block_object')),
     Sub('history', execute_history, strategy=history_strategy, quick=1200, thorough=40000, floor=50,
         must_hit=('mut:edit_name', 'mut:rename', 'mut:set_value', 'pre_fail:single_block', 'pre_fail:pushback_abandoned', 'pre_fail:deep', 'pre_fail:nonstr', 'pre_fail:bad_file', 'pre_fail:raised')),
